@@ -219,6 +219,14 @@ fn projection(sender: &mut Sender, ctx: &PktCtx, added: &Vec<(usize, u128)>) -> 
 }
 
 pub fn run_behaviour(beh: &Value, out: &mut Out) {
+    let mut sink = None;
+    run_behaviour_sink(beh, out, &mut sink)
+}
+
+/// like run_behaviour; when `sink` is Some, every packet returned by the sender is appended to it as
+/// (virtual time, bytes, abstract record) and the object catalogue is returned through `cat`
+pub type PacketSink = Option<Vec<(i64, Vec<u8>, Value)>>;
+pub fn run_behaviour_sink(beh: &Value, out: &mut Out, sink: &mut PacketSink) {
     let cfg = jget(beh, "cfg");
     let tick_us = jopt_i(cfg, "tick_us", 1000) as u64;
     let default_oti = match make_oti(cfg) {
@@ -287,7 +295,7 @@ pub fn run_behaviour(beh: &Value, out: &mut Out) {
     let drain_cap = jopt_i(beh, "drain_cap", 5000);
 
     // one read call: returns false when the sender returned None or panicked
-    let mut do_read = |sender: &mut Sender, ctx: &mut PktCtx, added: &Vec<(usize, u128)>, t: i64, out: &mut Out| -> i8 {
+    let mut do_read = |sender: &mut Sender, ctx: &mut PktCtx, added: &Vec<(usize, u128)>, t: i64, out: &mut Out, sink: &mut PacketSink| -> i8 {
         let now = vtime(t, tick_us);
         sub.events.lock().unwrap().clear();
         let r = catch(|| sender.read(now));
@@ -316,6 +324,9 @@ pub fn run_behaviour(beh: &Value, out: &mut Out) {
                     Some(bytes) => ctx.abstract_pkt(bytes),
                     None => (json!({"k":"none"}), None),
                 };
+                if let (Some(sk), Some(bytes)) = (sink.as_mut(), &pkt) {
+                    sk.push((t, bytes.clone(), p.clone()));
+                }
                 let st = projection(sender, ctx, added);
                 out.emit(&json!({"ev":"read","t":t,"res":"ok","sub":sub_json,"p":p,"st":st}));
                 if let Some((id, xml)) = fdt_done {
@@ -418,14 +429,14 @@ pub fn run_behaviour(beh: &Value, out: &mut Out) {
                 out.emit(&json!({"ev":"complete","t":t}));
             }
             "read" => {
-                if do_read(&mut sender, &mut ctx, &added, t, out) < 0 {
+                if do_read(&mut sender, &mut ctx, &added, t, out, sink) < 0 {
                     dead = true;
                 }
             }
             "readn" => {
                 let n = a[1].as_i64().unwrap();
                 for _ in 0..n {
-                    let r = do_read(&mut sender, &mut ctx, &added, t, out);
+                    let r = do_read(&mut sender, &mut ctx, &added, t, out, sink);
                     if r < 0 {
                         dead = true;
                     }
@@ -439,7 +450,7 @@ pub fn run_behaviour(beh: &Value, out: &mut Out) {
                 let mut capped = true;
                 while n < drain_cap {
                     n += 1;
-                    let r = do_read(&mut sender, &mut ctx, &added, t, out);
+                    let r = do_read(&mut sender, &mut ctx, &added, t, out, sink);
                     if r < 0 {
                         dead = true;
                     }
@@ -458,6 +469,9 @@ pub fn run_behaviour(beh: &Value, out: &mut Out) {
                     Err(m) => out.emit(&json!({"ev":"close","t":t,"res":"panic","m":m})),
                     Ok(bytes) => {
                         let (p, _) = ctx.abstract_pkt(&bytes);
+                        if let Some(sk) = sink.as_mut() {
+                            sk.push((t, bytes.clone(), p.clone()));
+                        }
                         out.emit(&json!({"ev":"close","t":t,"res":"ok","p":p}));
                     }
                 }
